@@ -359,14 +359,31 @@ struct Run {
     live_violations: Vec<(String, String)>,
 }
 
+/// Shape of a log: per sync window the *sorted* (kind, offset, len) triples — redb flushes its
+/// write buffer in hash-map order, so the order of the writes inside a window varies from run
+/// to run while the set does not.
 fn shape_hash(log: &[Rec]) -> u64 {
     let mut bytes = Vec::with_capacity(log.len() * 17);
+    let mut cur: Vec<(u8, u64, u64)> = vec![];
+    let flush = |cur: &mut Vec<(u8, u64, u64)>, bytes: &mut Vec<u8>| {
+        cur.sort();
+        for (k, a, b) in cur.drain(..) {
+            bytes.push(k);
+            bytes.extend_from_slice(&a.to_le_bytes());
+            bytes.extend_from_slice(&b.to_le_bytes());
+        }
+    };
     for r in log {
-        let (k, a, b) = r.shape();
-        bytes.push(k);
-        bytes.extend_from_slice(&a.to_le_bytes());
-        bytes.extend_from_slice(&b.to_le_bytes());
+        if r.is_sync() {
+            flush(&mut cur, &mut bytes);
+            let (k, a, b) = r.shape();
+            cur.push((k, a, b));
+            flush(&mut cur, &mut bytes);
+        } else {
+            cur.push(r.shape());
+        }
     }
+    flush(&mut cur, &mut bytes);
     fnv64(&bytes)
 }
 
@@ -476,38 +493,60 @@ fn step_of(run: &Run, p: usize) -> String {
         .map_or("after-close".into(), |s| s.name.clone())
 }
 
+/// Exploration switch (not used by the tiers): also treat `set_len` as a record that can be lost.
+fn set_len_droppable() -> bool {
+    std::env::var("C22_SETLEN_DROPPABLE").is_ok()
+}
+
+fn off_len(r: &Rec) -> Value {
+    let (k, a, b) = r.shape();
+    json!([k, a, b])
+}
+
+fn window_desc(run: &Run, w: &Window, mask: u64) -> Vec<String> {
+    let mut out = vec![];
+    let mut item = 0usize;
+    for idx in w.durable_end..w.end {
+        if item < w.items.len() && w.items[item] == idx {
+            out.push(format!("{}{}", if mask >> item & 1 == 1 { "kept " } else { "LOST " }, run.log[idx].describe()));
+            item += 1;
+        } else {
+            out.push(format!("     {}", run.log[idx].describe()));
+        }
+    }
+    out
+}
+
 fn case_json(run: &Run, p: usize, mask: u64, w: &Window, fx: &Fx) -> Value {
+    let syncs_before = run.log[..w.durable_end].iter().filter(|r| matches!(r, Rec::Sync { eventual: false })).count();
+    let kept: Vec<Value> = w.items.iter().enumerate().filter(|(i, _)| mask >> i & 1 == 1).map(|(_, idx)| off_len(&run.log[*idx])).collect();
+    let lost: Vec<Value> = w.items.iter().enumerate().filter(|(i, _)| mask >> i & 1 == 0).map(|(_, idx)| off_len(&run.log[*idx])).collect();
+    let fixed = (w.durable_end..w.end).filter(|i| !w.items.contains(i) && !run.log[*i].is_sync()).count();
     json!({
         "start": run.start,
         "ops": run.ops,
+        // identification of the crash scenario that is stable under reordering of the
+        // writes inside a sync window:
+        "window_ordinal": syncs_before,
+        "kept": kept,
+        "lost": lost,
+        "set_lens_applied": fixed,
+        // as seen in the recording run:
         "crash_point": p,
-        "mask": mask,
-        "log_shape": format!("{:016x}", shape_hash(&run.log)),
-        "window": w.items.iter().enumerate().map(|(i, idx)| {
-            format!("{}{}", if mask >> i & 1 == 1 { "kept " } else { "LOST " }, run.log[*idx].describe())
-        }).collect::<Vec<_>>(),
-        "durable_end": w.durable_end,
+        "window": window_desc(run, w, mask),
         "step": step_of(run, p),
         "steps": run.steps,
         "headers": fx.a,
     })
 }
 
-/// Reopens one crash image and judges it.  Returns the outcome class.
-fn eval_image(run: &Run, p: usize, mask: u64, w: &Window, durable: &[u8], fx: &Fx, rep: &mut Report) {
-    let img = materialise(durable, &run.log, w, mask);
-    let n_ack = acked(run, p);
-    let dropped = w.items.len() as u32 - mask.count_ones();
-    let key = fnv64(format!("{:?}/{:?}/{p}/{mask}", run.start, run.ops).as_bytes());
-    let nontrivial = !w.items.is_empty();
-    let phase = step_of(run, p);
-    let phase_class = match phase.as_str() {
-        "DbOpen" => "db-create",
-        "StoreNew" => "store-new",
-        "Close" | "after-close" => "close",
-        _ => "op",
-    };
+enum Reopen {
+    Panic(String),
+    Failed(String),
+    Opened(Obs),
+}
 
+fn reopen(img: Vec<u8>, fx: &Fx) -> Reopen {
     let be = LoggingBackend::from_image(img, false);
     let res = guard(|| -> Result<Obs, String> {
         let db = open_db(be.clone()).map_err(|e| format!("Database open: {e}"))?;
@@ -518,111 +557,159 @@ fn eval_image(run: &Run, p: usize, mask: u64, w: &Window, durable: &[u8], fx: &F
             Ok(o)
         })
     });
-    let obs = match res {
-        Err(panic) => {
-            rep.case(key, "panic", nontrivial);
-            rep.violation(
-                "panic-on-reopen",
-                format!("reopening the crash image panicked: {panic}"),
-                case_json(run, p, mask, w, fx),
-            );
-            return;
-        }
-        Ok(Err(e)) => {
-            // redb creates a database file in two synced stages and writes the magic number
-            // last; a crash inside `Database::create` (before any RedbStore exists) leaves a
-            // file that redb itself refuses.  That window belongs to redb's file creation, not
-            // to an operation on the store, and is reported as its own class.
-            if phase_class == "db-create" && run.start == Start::Empty {
-                rep.case(key, "db-create:refused-by-redb", nontrivial);
-                return;
-            }
-            rep.case(key, &format!("{phase_class}:reopen-failed"), nontrivial);
-            rep.violation(
-                "reopen-failed",
-                format!("crash during {phase} (log prefix {p}, {dropped} unsynced record(s) lost): reopen failed: {e}"),
-                case_json(run, p, mask, w, fx),
-            );
-            return;
-        }
-        Ok(Ok(o)) => o,
-    };
-    // which model prefixes does the recovered state equal?
-    let matches: Vec<usize> = (0..run.model_obs.len()).filter(|j| run.model_obs[*j] == obs).collect();
-    if let Some(j) = matches.iter().find(|j| **j >= n_ack) {
-        let class = if *j == n_ack {
-            // exactly the acknowledged steps (the step in flight is invisible or a no-op)
-            format!("{phase_class}:recovered-old")
-        } else {
-            format!("{phase_class}:recovered-new")
-        };
-        rep.case(key, &class, nontrivial);
-        if rep.wants_sample() && (mask % 7 == 3 || p % 11 == 5) && dropped > 0 {
-            rep.sample(|| {
-                json!({"start": run.start, "ops": run.ops, "crash_point": p, "step": phase,
-                       "window": w.items.iter().enumerate().map(|(i, idx)| format!("{}{}", if mask >> i & 1 == 1 {"kept "} else {"LOST "}, run.log[*idx].describe())).collect::<Vec<_>>(),
-                       "acknowledged_steps": n_ack, "recovered_equals_model_prefix": j,
-                       "recovered_stored": obs.stored})
-            });
-        }
-    } else if let Some(j) = matches.last() {
-        rep.case(key, &format!("{phase_class}:lost-acknowledged"), nontrivial);
-        rep.violation(
-            "acknowledged-operation-lost",
-            format!(
-                "crash during {phase} (log prefix {p}, {dropped} unsynced record(s) lost): {n_ack} step(s) had returned, but the recovered store equals the model after only {j} step(s): stored {}",
-                obs.stored
-            ),
-            case_json(run, p, mask, w, fx),
-        );
-    } else {
-        rep.case(key, &format!("{phase_class}:inconsistent"), nontrivial);
-        rep.violation(
-            "recovered-state-matches-no-prefix",
-            format!(
-                "crash during {phase} (log prefix {p}, {dropped} unsynced record(s) lost): recovered observation equals no model prefix: {}",
-                serde_json::to_string(&obs).unwrap()
-            ),
-            case_json(run, p, mask, w, fx),
-        );
+    match res {
+        Err(p) => Reopen::Panic(p),
+        Ok(Err(e)) => Reopen::Failed(e),
+        Ok(Ok(o)) => Reopen::Opened(o),
     }
 }
 
-/// Exploration switch (not used by the tiers): also treat `set_len` as a record that can be lost.
-fn set_len_droppable() -> bool {
-    std::env::var("C22_SETLEN_DROPPABLE").is_ok()
+/// Judges one crash scenario (crash point `p`, survivor set `mask` of `w = window(p)`) given
+/// what reopening its image gave.  Returns (class, violation).
+fn judge(run: &Run, p: usize, mask: u64, w: &Window, out: &Reopen, fx: &Fx) -> (String, Option<(String, String, Value)>) {
+    let n_ack = acked(run, p);
+    let dropped = w.items.len() as u32 - mask.count_ones();
+    let phase = step_of(run, p);
+    let pc = match phase.as_str() {
+        "DbOpen" => "db-create",
+        "StoreNew" => "store-new",
+        "Close" | "after-close" => "close",
+        _ => "op",
+    };
+    let at = format!("crash during {phase} (log prefix {p}, {dropped} of {} unsynced write(s) lost)", w.items.len());
+    match out {
+        Reopen::Panic(m) => (
+            "panic".into(),
+            Some(("panic-on-reopen".into(), format!("{at}: reopening panicked: {m}"), case_json(run, p, mask, w, fx))),
+        ),
+        Reopen::Failed(e) => {
+            // redb creates a database file in synced stages and writes the magic number last; a
+            // crash inside `Database::create` on an empty backend (before any RedbStore exists)
+            // leaves a file that redb itself refuses.  That window belongs to redb's file
+            // creation, not to an operation on the store: reported as its own class.
+            if pc == "db-create" && run.start == Start::Empty {
+                return ("db-create:refused-by-redb".into(), None);
+            }
+            (
+                format!("{pc}:reopen-failed"),
+                Some(("reopen-failed".into(), format!("{at}: reopen failed: {e}"), case_json(run, p, mask, w, fx))),
+            )
+        }
+        Reopen::Opened(obs) => {
+            let matches: Vec<usize> = (0..run.model_obs.len()).filter(|j| run.model_obs[*j] == *obs).collect();
+            if let Some(j) = matches.iter().find(|j| **j >= n_ack) {
+                if *j == n_ack {
+                    // exactly the acknowledged steps (the step in flight is invisible or a no-op)
+                    (format!("{pc}:recovered-old"), None)
+                } else {
+                    (format!("{pc}:recovered-new"), None)
+                }
+            } else if let Some(j) = matches.last() {
+                (
+                    format!("{pc}:lost-acknowledged"),
+                    Some((
+                        "acknowledged-operation-lost".into(),
+                        format!("{at}: {n_ack} step(s) had returned ({}), but the recovered store equals the model after only {j} step(s): stored {}",
+                            run.steps[..n_ack].iter().map(|s| s.name.clone()).collect::<Vec<_>>().join(","), obs.stored),
+                        case_json(run, p, mask, w, fx),
+                    )),
+                )
+            } else {
+                (
+                    format!("{pc}:inconsistent"),
+                    Some((
+                        "recovered-state-matches-no-prefix".into(),
+                        format!("{at}: recovered observation equals no model prefix: {}", serde_json::to_string(obs).unwrap()),
+                        case_json(run, p, mask, w, fx),
+                    )),
+                )
+            }
+        }
+    }
 }
 
-/// One unit of parallel work: a crash point of a run and a chunk of survivor masks.
+/// One unit of parallel work: a sync window of a run and a chunk of survivor masks over the
+/// writes of the *whole* window.  A mask whose highest survivor is write k stands for every
+/// crash point of the window after write k: those scenarios leave the same image (they differ
+/// only in how many `set_len`s were applied and in what had been acknowledged), so the image is
+/// reopened once per (mask, set_lens applied) and judged for every such crash point.
 struct Job {
     run: usize,
-    p: usize,
-    w: Window,
+    /// first and last crash point of the window to judge
+    p_lo: usize,
+    p_hi: usize,
     masks: Vec<u64>,
 }
 
 fn jobs_for(run_idx: usize, run: &Run, from_p: usize, rep: &mut Report) -> Vec<Job> {
     let mut out = vec![];
-    for p in from_p..=run.log.len() {
-        let w = window(&run.log, p, set_len_droppable());
-        let (mut masks, exhaustive) = w.masks(SUBSET_CAP);
-        if !exhaustive {
-            rep.cap_hit(&format!("unsynced window of more than {SUBSET_CAP} records: prefixes/single drops/single survivors/pairs only"));
+    let l = run.log.len();
+    let mut d = 0usize;
+    while d <= l {
+        // window [d, e]: e = index of the next non-eventual sync (or the end of the log)
+        let e = (d..l).find(|i| matches!(run.log[*i], Rec::Sync { eventual: false })).unwrap_or(l);
+        if e >= from_p {
+            let w = window(&run.log, e, set_len_droppable());
+            let (mut masks, exhaustive) = w.masks(SUBSET_CAP);
+            if !exhaustive {
+                rep.cap_hit(&format!("unsynced window of more than {SUBSET_CAP} writes: prefixes/single drops/single survivors/pairs only"));
+            }
+            // fewest survivors first = earliest crash points first
+            masks.sort_by_key(|m| (64 - m.leading_zeros(), *m));
+            for chunk in masks.chunks(24) {
+                out.push(Job { run: run_idx, p_lo: d.max(from_p), p_hi: e, masks: chunk.to_vec() });
+            }
         }
-        // fewest losses first
-        masks.sort_by_key(|m| (w.items.len() as u32 - m.count_ones(), *m));
-        for chunk in masks.chunks(32) {
-            out.push(Job { run: run_idx, p, w: w.clone(), masks: chunk.to_vec() });
-        }
+        d = e + 1;
     }
     out
 }
 
 fn run_job(job: &Job, runs: &[Run], fx: &Fx, rep: &mut Report) {
     let run = &runs[job.run];
-    let durable = durable_image(&run.base, &run.log, &job.w);
-    for m in &job.masks {
-        eval_image(run, job.p, *m, &job.w, &durable, fx, rep);
+    let wins: Vec<Window> = (job.p_lo..=job.p_hi).map(|p| window(&run.log, p, set_len_droppable())).collect();
+    let durable = durable_image(&run.base, &run.log, &wins[0]);
+    for &mask in &job.masks {
+        let need = (64 - mask.leading_zeros()) as usize; // items the prefix must contain
+        // group the crash points by the image they leave (= by non-droppable records applied)
+        let mut i = 0usize;
+        while i < wins.len() {
+            if wins[i].items.len() < need {
+                i += 1;
+                continue;
+            }
+            let fixed = |w: &Window| (w.end - w.durable_end) - w.items.len();
+            let mut j = i;
+            while j + 1 < wins.len() && fixed(&wins[j + 1]) == fixed(&wins[i]) {
+                j += 1;
+            }
+            let w0 = &wins[i];
+            let img = materialise(&durable, &run.log, w0, mask);
+            let out = reopen(img, fx);
+            let key = fnv64(format!("{:?}/{:?}/{}/{mask}/{}", run.start, run.ops, w0.durable_end, fixed(w0)).as_bytes());
+            let mut class = String::new();
+            for w in &wins[i..=j] {
+                rep.transitions += 1;
+                let (c, v) = judge(run, w.end, mask, w, &out, fx);
+                class = c;
+                if let Some((k, what, case)) = v {
+                    rep.violation(&k, what, case);
+                    break;
+                }
+            }
+            rep.case(key, &class, mask != 0 || !w0.items.is_empty());
+            if rep.wants_sample() && mask % 5 == 2 && (mask.count_ones() as usize) < wins[j].items.len() {
+                if let Reopen::Opened(obs) = &out {
+                    let w = &wins[j];
+                    rep.sample(|| {
+                        json!({"start": run.start, "ops": run.ops, "crash_point": w.end, "step": step_of(run, w.end),
+                               "window": window_desc(run, w, mask), "acknowledged_steps": acked(run, w.end),
+                               "class": class, "recovered_stored": obs.stored, "recovered_head": obs.head})
+                    });
+                }
+            }
+            i = j + 1;
+        }
     }
 }
 
@@ -644,6 +731,72 @@ fn histories(max_len: usize) -> Vec<Vec<Op>> {
     out
 }
 
+fn replay(ctx: &Ctx, c: &Value, rep: &mut Report) {
+    let fx = Fx::from_json(&c["headers"]);
+    let start: Start = serde_json::from_value(c["start"].clone()).unwrap();
+    let ops: Vec<Op> = serde_json::from_value(c["ops"].clone()).unwrap();
+    let base = Arc::new(match start {
+        Start::Empty => vec![],
+        Start::Populated => build_populated(&fx),
+    });
+    let run = run_history(start, &ops, &base, &fx);
+    for (k, what) in &run.live_violations {
+        rep.violation(k, what.clone(), json!({"start": start, "ops": ops, "headers": fx.a}));
+    }
+    if c.get("window_ordinal").is_none() {
+        return; // a live-run violation: nothing more to replay
+    }
+    let ord = c["window_ordinal"].as_u64().unwrap() as usize;
+    let triples = |v: &Value| -> Vec<(u8, u64, u64)> {
+        v.as_array().map(|a| a.iter().map(|t| (t[0].as_u64().unwrap() as u8, t[1].as_u64().unwrap(), t[2].as_u64().unwrap())).collect()).unwrap_or_default()
+    };
+    let kept = triples(&c["kept"]);
+    let lost = triples(&c["lost"]);
+    let fixed_want = c["set_lens_applied"].as_u64().unwrap_or(0) as usize;
+    // locate the window
+    let l = run.log.len();
+    let mut d = 0usize;
+    for _ in 0..ord {
+        match (d..l).find(|i| matches!(run.log[*i], Rec::Sync { eventual: false })) {
+            Some(e) => d = e + 1,
+            None => machinery_error(&ctx.id, "replay: the log of this run has fewer sync windows than the recorded one"),
+        }
+    }
+    let e = (d..l).find(|i| matches!(run.log[*i], Rec::Sync { eventual: false })).unwrap_or(l);
+    // smallest crash point of the window whose prefix holds all the named writes
+    let mut chosen: Option<(usize, u64)> = None;
+    for p in d..=e {
+        let w = window(&run.log, p, set_len_droppable());
+        let mut used = vec![false; w.items.len()];
+        let mut find = |t: &(u8, u64, u64)| -> Option<usize> {
+            let i = (0..w.items.len()).find(|i| !used[*i] && run.log[w.items[*i]].shape() == *t)?;
+            used[i] = true;
+            Some(i)
+        };
+        let k: Option<Vec<usize>> = kept.iter().map(&mut find).collect();
+        let lo: Option<Vec<usize>> = lost.iter().map(&mut find).collect();
+        let fixed = (w.end - w.durable_end) - w.items.len();
+        if let (Some(k), Some(_)) = (k, lo) {
+            if fixed >= fixed_want {
+                chosen = Some((p, k.iter().fold(0u64, |m, i| m | 1 << i)));
+                break;
+            }
+        }
+    }
+    let Some((p, mask)) = chosen else {
+        machinery_error(&ctx.id, "replay: the recorded writes do not occur in the corresponding sync window of this run");
+    };
+    let w = window(&run.log, p, set_len_droppable());
+    println!("NOTE property=C22 replaying crash point {p} of this run: {:?}", window_desc(&run, &w, mask));
+    let durable = durable_image(&run.base, &run.log, &w);
+    let out = reopen(materialise(&durable, &run.log, &w, mask), &fx);
+    let (class, v) = judge(&run, p, mask, &w, &out, &fx);
+    rep.case(1, &class, true);
+    if let Some((k, what, case)) = v {
+        rep.violation(&k, what, case);
+    }
+}
+
 fn main() {
     let ctx = Ctx::from_args("C22").with_level("fault_enumeration");
     let max_len = ctx.tier.pick(2usize, 3usize);
@@ -651,36 +804,14 @@ fn main() {
         std::env::var("C22_WALL_CAP")
             .ok()
             .and_then(|s| s.parse().ok())
-            .unwrap_or(ctx.tier.pick(50, 13 * 60)),
+            .unwrap_or(ctx.tier.pick(150, 13 * 60)),
     );
     let mut rep = Report::new();
     rep.sample_cap = 8;
 
     if let Some(c) = ctx.replay_case() {
-        let fx = Fx::from_json(&c["headers"]);
-        let start: Start = serde_json::from_value(c["start"].clone()).unwrap();
-        let ops: Vec<Op> = serde_json::from_value(c["ops"].clone()).unwrap();
-        let p = c["crash_point"].as_u64().unwrap() as usize;
-        let mask = c["mask"].as_u64().unwrap();
-        let base = Arc::new(match start {
-            Start::Empty => vec![],
-            Start::Populated => build_populated(&fx),
-        });
-        let run = run_history(start, &ops, &base, &fx);
-        for (k, what) in &run.live_violations {
-            rep.violation(k, what.clone(), json!({"start": start, "ops": ops, "headers": fx.a}));
-        }
-        if p > run.log.len() {
-            machinery_error(&ctx.id, &format!("replay: crash point {p} beyond the log ({} records)", run.log.len()));
-        }
-        let shape = format!("{:016x}", shape_hash(&run.log));
-        if c["log_shape"].as_str().is_some_and(|s| s != shape) {
-            println!("NOTE property=C22 log shape differs from the recorded one ({shape}); crash point indices may have shifted");
-        }
-        let w = window(&run.log, p, set_len_droppable());
-        let durable = durable_image(&run.base, &run.log, &w);
-        eval_image(&run, p, mask, &w, &durable, &fx, &mut rep);
-        finish_c22(&ctx, rep, max_len);
+        replay(&ctx, &c, &mut rep);
+        finish_c22(&ctx, rep);
     }
 
     let fx = Fx::fresh();
@@ -709,28 +840,33 @@ fn main() {
     rep.extra("histories", json!(runs.len()));
     rep.extra("live_run_wall_s", json!(t0.elapsed().as_secs_f64()));
 
-    let mut writes_per_commit: BTreeMap<usize, u64> = BTreeMap::new();
+    let mut writes_per_window: BTreeMap<usize, u64> = BTreeMap::new();
     let mut eventual_syncs = 0u64;
+    let mut log_records = 0u64;
     for r in &runs {
         for (k, what) in &r.live_violations {
-            rep.violation(k, what.clone(), json!({"start": r.start, "ops": r.ops, "headers": fx.a, "crash_point": 0, "mask": 0}));
+            rep.violation(k, what.clone(), json!({"start": r.start, "ops": r.ops, "headers": fx.a}));
         }
+        log_records += r.log.len() as u64;
         let mut n = 0usize;
         for rec in &r.log {
             match rec {
                 Rec::Sync { eventual } => {
                     if *eventual {
                         eventual_syncs += 1;
+                    } else {
+                        *writes_per_window.entry(n).or_insert(0) += 1;
+                        n = 0;
                     }
-                    *writes_per_commit.entry(n).or_insert(0) += 1;
-                    n = 0;
                 }
-                _ => n += 1,
+                Rec::Write { .. } => n += 1,
+                Rec::SetLen(_) => {}
             }
         }
     }
-    rep.extra("records_between_syncs_histogram", json!(writes_per_commit));
+    rep.extra("writes_per_sync_window_histogram", json!(writes_per_window));
     rep.extra("eventual_syncs_seen", json!(eventual_syncs));
+    rep.extra("log_records_total", json!(log_records));
     if std::env::var("C22_DUMP").is_ok() {
         for r in runs.iter().filter(|r| r.ops.len() <= 1) {
             println!("== {:?} {:?} base={} steps={:?}", r.start, r.ops, r.base.len(), r.steps);
@@ -741,7 +877,7 @@ fn main() {
     }
 
     // 2. jobs, level by level (shorter histories first)
-    let mut nondeterministic_prefixes = 0u64;
+    let mut differing_prefixes = 0u64;
     let stop = AtomicBool::new(false);
     let skipped = AtomicU64::new(0);
     let mut completed_len: i64 = -1;
@@ -756,18 +892,18 @@ fn main() {
                 0
             } else {
                 let parent = &runs[index[&(r.start, r.ops[..len - 1].to_vec())]];
-                // steps DbOpen, StoreNew, op_1..op_{len-1} are shared with the parent
+                // steps DbOpen, StoreNew, op_1..op_{len-1} are shared with the parent history
                 let shared = 2 + len - 1;
                 let same = parent.steps.len() >= shared
                     && (0..shared).all(|k| parent.shape_at[k] == r.shape_at[k] && parent.steps[k].end == r.steps[k].end);
                 if same {
                     r.steps[shared - 1].end + 1
                 } else {
-                    nondeterministic_prefixes += 1;
+                    differing_prefixes += 1;
                     0
                 }
             };
-            jobs.extend(jobs_for(i, r, from_p.min(r.log.len() + 1), &mut rep));
+            jobs.extend(jobs_for(i, r, from_p, &mut rep));
         }
         planned += jobs.iter().map(|j| j.masks.len() as u64).sum::<u64>();
         let level_rep = jobs
@@ -797,14 +933,19 @@ fn main() {
     }
     if stop.load(Ordering::Relaxed) {
         rep.cap_hit(&format!(
-            "wall cap {}s: histories up to length {completed_len} completed, {} crash images of longer histories skipped",
+            "wall cap {}s: histories up to length {completed_len} completed, {} lost-write subsets of longer histories skipped",
             wall_cap.as_secs(),
             skipped.load(Ordering::Relaxed)
         ));
     }
+    rep.traces = rep.evaluations;
     rep.extra("completed_history_length", json!(completed_len));
-    rep.extra("crash_images_planned_in_started_levels", json!(planned));
-    rep.extra("histories_whose_prefix_log_shape_differed_from_parent", json!(nondeterministic_prefixes));
+    rep.extra("lost_write_subsets_planned_in_started_levels", json!(planned));
+    rep.extra("histories_whose_prefix_log_shape_differed_from_parent", json!(differing_prefixes));
+    rep.extra(
+        "counting",
+        json!("evaluations = crash images reopened with the real code (one per distinct image); transitions = crash scenarios (crash point, lost-write subset) judged against the model — scenarios of one sync window that leave the same image share the reopen"),
+    );
     rep.max_depth = max_len as u64;
     // a live history written out
     if let Some(r) = runs.iter().find(|r| r.ops.len() == 1 && r.start == Start::Empty) {
@@ -815,21 +956,21 @@ fn main() {
         );
         rep.samples.truncate(8);
     }
-    finish_c22(&ctx, rep, max_len);
+    finish_c22(&ctx, rep);
 }
 
-fn finish_c22(ctx: &Ctx, rep: Report, _max_len: usize) -> ! {
+fn finish_c22(ctx: &Ctx, rep: Report) -> ! {
     finish(
         ctx,
         rep,
         Spec {
-            rule: "histories = all sequences of length <= 2 (quick) / <= 3 (thorough) over {insert 1..=2, insert 3..=3, insert 5..=6, insert 4..=4, remove_height 1, mark_as_sampled 2, update_sampling_metadata 2 [c1,c2], refused unchecked insert [A4,A4]} x start in {empty backend, cleanly closed db holding 1..=2,5..=6 + metadata}; each run = steps DbOpen, StoreNew, ops, Close on the real RedbStore over a logging StorageBackend; crash space = every log prefix p x every subset of the whole writes issued after the last non-eventual sync_data in the prefix (eventual syncs act as barriers; set_len applies at once); windows of steps shared with the prefix history are enumerated under that history only (log shapes compared), so each (pre-state, operation, crash point, lost-write subset) is reopened once; evaluation = one crash image reopened with redb::Database + RedbStore::new and totally observed (ranges, head, get_by_height/has_at/get_sampling_metadata for h in 0..=7, get_by_hash/has for A1..A6) and compared with the reference-model states after j steps for all j >= number of steps returned before p; distinct = (start, history, p, subset); non-trivial = the unsynced window of the crash point is non-empty",
+            rule: "histories = all sequences of length <= 2 (quick) / <= 3 (thorough) over {insert 1..=2, insert 3..=3, insert 5..=6, insert 4..=4, remove_height 1, mark_as_sampled 2, update_sampling_metadata 2 [c1,c2], refused unchecked insert [A4,A4]} x start in {empty backend, cleanly closed db holding 1..=2,5..=6 + metadata}; each run = steps DbOpen, StoreNew, ops, Close on the real RedbStore over a logging StorageBackend; crash space = every log prefix p x every subset of the whole writes issued after the last non-eventual sync_data in the prefix (eventual syncs act as barriers; set_len applies at once); scenarios of one sync window that leave the same image are reopened once and judged for each of their crash points; windows of steps shared with the prefix history are enumerated under that history only (log shapes compared per window, order-insensitively); evaluation = one crash image reopened with redb::Database + RedbStore::new and totally observed (ranges, head, get_by_height/has_at/get_sampling_metadata for h in 0..=7, get_by_hash/has for A1..A6), compared with the reference-model states after j steps for all j >= number of steps returned before p; distinct = (start, history, window, subset, set_lens applied); non-trivial = the window holds at least one unsynced write",
             assumptions: &[
                 "whole-write atomicity: a single StorageBackend::write is persisted entirely or not at all (no torn write)",
                 "records issued before a completed non-eventual sync_data are durable; later writes survive in any subset; set_len (file length) takes effect at once and durably — only whole writes are lost, as in the property's quantifier",
                 "a crash inside redb's own file creation (Database::create on an empty backend, before RedbStore::new runs) may leave a file redb refuses (magic number not yet written); counted as class db-create:refused-by-redb, not as a store failure",
                 "the libp2p identity is not part of the observation",
-                "header bytes come from ExtendedHeaderGenerator (random keys); a replay file carries the headers",
+                "header bytes come from ExtendedHeaderGenerator (random keys); a replay file carries the headers and names lost/kept writes by offset",
             ],
             required_classes: &["op:recovered-old", "op:recovered-new", "store-new:recovered-old", "close:recovered-old"],
             exhaustive: true,
